@@ -85,8 +85,10 @@ theorem alloc_read_checked {dbg : Bool} {al : Allocation} {off size : Nat} {bs :
     off + size ≤ al.inner.length ∧ Usize.is_multiple_of off size = true
       ∧ bs = (al.inner.drop off).take size := by
   res_unfold [Allocation.read] at h
-  obtain ⟨hb, ha, hs⟩ := h
-  obtain ⟨_, _, rfl⟩ := slice_ok hs
+  -- the bound is taken from the slice itself (Rust's own check), so that a differently worded
+  -- assertion that still stops every out-of-bounds access keeps the proof
+  obtain ⟨_, ha, hs⟩ := h
+  obtain ⟨_, hb, rfl⟩ := slice_ok hs
   exact ⟨hb, ha, by simp⟩
 
 /-- `Allocation::write` completes only inside the allocation's bytes, aligned, and replaces exactly
@@ -96,8 +98,8 @@ theorem alloc_write_checked {dbg : Bool} {al al' : Allocation} {off : Nat} {val 
     off + val.length ≤ al.inner.length ∧ Usize.is_multiple_of off val.length = true
       ∧ al' = Allocation.patched al off val := by
   res_unfold [Allocation.write] at h
-  obtain ⟨hb, ha, ys, hs, rfl⟩ := h
-  obtain ⟨_, _, _, rfl⟩ := splice_ok hs
+  obtain ⟨_, ha, ys, hs, rfl⟩ := h
+  obtain ⟨_, hb, _, rfl⟩ := splice_ok hs
   exact ⟨hb, ha, rfl⟩
 
 /-! ### T2: reads, writes and copies through `Memory` -/
